@@ -37,3 +37,24 @@ End LoadKeeps.
 Theorem load_keeps_registrations sp ssw w j :
   host_regs (snd (load_state sp ssw w j)) = host_regs w.
 Proof. unfold load_state. apply lk_load_json_obj. intros w0 g. destruct w0; reflexivity. Qed.
+
+(* ---------- C15: a load — successful or failed — is followed by a reset that is a fresh start ---------- *)
+From Ink.Shell Require Import ResetProofs.
+
+Lemma load_keeps_between_calls sp ssw w j :
+  between_calls w -> between_calls (snd (load_state sp ssw w j)).
+Proof.
+  intros H.
+  pose proof (lk_load_json_obj sp ssw (fun w => (w_async w, w_rcc w, w_snapshot w, w_saw_unsafe w))
+                (fun w g => ltac:(destruct w; reflexivity)) j w) as E.
+  unfold load_state. unfold between_calls in *.
+  injection E as E1 E2 E3 E4. rewrite E1, E2, E3, E4. exact H.
+Qed.
+
+Theorem reset_after_any_load_is_fresh (I : iface) sp ssw (seed : Z) w j :
+  between_calls w ->
+  reset_state I sw_now seed (snd (load_state sp ssw w j)) =
+  reset_globals I sw_now (rebind (snd (load_state sp ssw w j))
+                                 (world_init (w_story (snd (load_state sp ssw w j))) seed
+                                             (w_fuel (snd (load_state sp ssw w j))))).
+Proof. intros H. apply reset_is_fresh_init. apply load_keeps_between_calls, H. Qed.
